@@ -38,7 +38,7 @@ RULES = ["*.log", "build/", "!keep.log", "/top.txt", "d/*.tmp", "d/"]
 def bounds(tier, seed):
     return {"names": len(NAMES), "dir_names": DIR_NAMES, "locations": LOCS, "kinds": KINDS,
             "packing": "one tree per (location, kind) with all names" + ("; plus every (name, location, kind) cell alone" if tier == "thorough" else "; plus the cells of location index seed % 9 alone"),
-            "gitignore_rules": RULES, "rule_set_size": 2 if tier == "quick" else "all 64 subsets",
+            "gitignore_rules": RULES, "rule_set_size": 3 if tier == "quick" else "all 64 subsets",
             "submodule_option_combinations": 4, "cwds": ["root", "subdir", "outside"]}
 
 
@@ -51,7 +51,7 @@ def cases(tier, seed):
             for kind in KINDS:
                 for n in (NAMES if kind != "dir" else NAMES + DIR_NAMES):
                     yield {"k": "names", "loc": loc, "kind": kind, "names": [n]}
-    n = 2 if tier == "quick" else len(RULES)
+    n = 3 if tier == "quick" else len(RULES)
     for size in range(0, n + 1):
         for rs in itertools.combinations(range(len(RULES)), size):
             for nested in (False, True):
